@@ -30,7 +30,7 @@ var wraps = []string{
 	"(%s -> true ; true)", "catch(throw(x), _, %s)", "\\+ \\+ %s", "(true, %s)", "(fail ; %s)", "setof(W, %s, _)",
 }
 
-var entries = []string{"query", "querysolution", "exec_directive", "exec_initialization", "term_expansion", "consult"}
+var entries = []string{"query", "querysolution", "exec_directive", "exec_initialization", "term_expansion", "consult", "ensure_loaded"}
 var cancels = []string{"step", "step", "step", "step", "async", "timeout", "precancelled", "expired"}
 
 // Case: a looping goal = base under wrappers, run through an entry point, cancelled at an instant.
@@ -128,7 +128,7 @@ func check(c Case) error {
 	defer stop()
 
 	var file string
-	if c.Entry == "consult" {
+	if c.Entry == "consult" || c.Entry == "ensure_loaded" {
 		dir, err := os.MkdirTemp("", "c13-")
 		if err != nil {
 			return fmt.Errorf("infrastructure: %v", err)
@@ -173,6 +173,8 @@ func check(c Case) error {
 			gotErr = i.P.ExecContext(ctx, "looping_clause.\n")
 		case "consult":
 			gotErr = i.P.ExecContext(ctx, ":- consult('"+file+"').\n")
+		case "ensure_loaded": // (a directive the loader handles itself, without going through call/1)
+			gotErr = i.P.ExecContext(ctx, ":- ensure_loaded('"+file+"').\n")
 		}
 	}
 	done := make(chan struct{})
@@ -213,7 +215,7 @@ func check(c Case) error {
 	if res.Err != nil || len(res.Answers) != 1 || res.Answers[0][0].String() != "[2,3]" {
 		return fmt.Errorf("after the cancelled call a findall/catch query gives %v, err %v", res.Answers, res.Err)
 	}
-	if c.Entry == "consult" {
+	if c.Entry == "consult" || c.Entry == "ensure_loaded" {
 		// the same file can be loaded again (now terminating) and defines its clauses
 		if e := i.Exec(":- retract(go).\n:- consult('"+file+"').\n", 500000); e != nil {
 			return fmt.Errorf("loading the file again after the cancelled load failed: %s", e)
@@ -251,8 +253,10 @@ func genCase() *rapid.Generator[Case] {
 			c.Entry = "exec_initialization"
 		case e < 18:
 			c.Entry = "term_expansion"
-		default:
+		case e < 19:
 			c.Entry = "consult"
+		default:
+			c.Entry = "ensure_loaded"
 		}
 		c.Cancel = cancels[u(len(cancels), "cancel")]
 		switch c.Cancel {
@@ -271,7 +275,7 @@ func TestProp(tt *testing.T) {
 	t := tt
 	r := h.Start(t, "C13")
 	defer r.Finish(t)
-	r.Rule(fmt.Sprintf("rapid-generated cases: a base loop (%d kinds: direct and mutual recursion, growing-structure recursion, repeat/fail, between/3 and length/2 enumerations, repeat followed by deterministic built-ins that fail) under 0-3 wrappers (findall, bagof, setof, \\+, catch, a catch whose recovery loops, call, once, ->, double negation, conjunction, disjunction), run through QueryContext, QuerySolutionContext, ExecContext (directive, initialization/1, a looping term_expansion/2, consult/1 of a file whose directive loops) x cancellation instants: exactly at trampoline step k for k from 1 to 10^5 (a context whose Done() counts polls: the harness owns the instant), asynchronous cancel() after 0-20 ms, WithTimeout, an already cancelled context, an expired deadline. Oracle: the pending call returns within %v; its error errors.Is the context's error; for step-exact cancellation at most 2*nesting+8 further polls happen after the cancellation and the largest gap between two consecutive polls during the run is below %v (which bounds the delay for every asynchronous instant); afterwards the same interpreter answers member/2 and findall/catch queries correctly, a consulted file can be loaded again and defines its clauses. Non-trivial: cancellation after at least one step inside at least one nested trampoline (a wrapper) or through Exec. Distinct by case.", len(bases), returnBound, gapBound),
+	r.Rule(fmt.Sprintf("rapid-generated cases: a base loop (%d kinds: direct and mutual recursion, growing-structure recursion, repeat/fail, between/3 and length/2 enumerations, repeat followed by deterministic built-ins that fail) under 0-3 wrappers (findall, bagof, setof, \\+, catch, a catch whose recovery loops, call, once, ->, double negation, conjunction, disjunction), run through QueryContext, QuerySolutionContext, ExecContext (directive, initialization/1, a looping term_expansion/2, consult/1 and the ensure_loaded/1 directive of a file whose directive loops) x cancellation instants: exactly at trampoline step k for k from 1 to 10^5 (a context whose Done() counts polls: the harness owns the instant), asynchronous cancel() after 0-20 ms, WithTimeout, an already cancelled context, an expired deadline. Oracle: the pending call returns within %v; its error errors.Is the context's error; for step-exact cancellation at most 2*nesting+8 further polls happen after the cancellation and the largest gap between two consecutive polls during the run is below %v (which bounds the delay for every asynchronous instant); afterwards the same interpreter answers member/2 and findall/catch queries correctly, a consulted file can be loaded again and defines its clauses. Non-trivial: cancellation after at least one step inside at least one nested trampoline (a wrapper) or through Exec. Distinct by case.", len(bases), returnBound, gapBound),
 		"Promise.Force polls ctx.Done() once per trampoline step (observed in the source); wall-clock bounds are >= 1000x the typical delay")
 	r.Regress(t)
 	if r.Failed() {
